@@ -138,6 +138,20 @@ impl Loc {
         }
         .clone()
     }
+    /// localized name of an error literal given its English name
+    pub fn err(&self, e: &str) -> String {
+        let x = &self.lang.errors;
+        match e {
+            "#N/A" => &x.na,
+            "#DIV/0!" => &x.div,
+            "#VALUE!" => &x.value,
+            "#REF!" => &x.r#ref,
+            "#NAME?" => &x.name,
+            "#NUM!" => &x.num,
+            _ => return e.to_string(),
+        }
+        .clone()
+    }
     pub fn bool(&self, b: bool) -> String {
         if b {
             self.lang.booleans.r#true.clone()
@@ -342,7 +356,7 @@ pub fn value_text(rng: &mut Rng, loc: &Loc, p: &Profile) -> String {
                 0 => loc.bool(b),
                 1 => (if b { "TRUE" } else { "FALSE" }).to_string(),
                 2 => (if b { "true" } else { "false" }).to_string(),
-                _ => rng.pick(&["#N/A", "#DIV/0!", "#VALUE!", "#REF!", "#NAME?", "#NUM!"]).to_string(),
+                _ => loc.err(*rng.pick(&["#N/A", "#DIV/0!", "#VALUE!", "#REF!", "#NAME?", "#NUM!"])),
             }
         }
         4 => {
@@ -365,8 +379,10 @@ pub fn value_text(rng: &mut Rng, loc: &Loc, p: &Profile) -> String {
 }
 
 pub fn cell_ref(rng: &mut Rng, cx: &FCtx) -> String {
-    let r = if rng.chance(0.05) && cx.p.edges { LAST_ROW } else { rng.range(1, WIN_ROWS as i64) as i32 };
-    let c = if rng.chance(0.05) && cx.p.edges { LAST_COL } else { rng.range(1, WIN_COLS as i64) as i32 };
+    // (guard of KF "reference pushed off the grid": no edge references)
+    let edges = cx.p.edges && !cx.p.guards;
+    let r = if rng.chance(0.05) && edges { LAST_ROW } else { rng.range(1, WIN_ROWS as i64) as i32 };
+    let c = if rng.chance(0.05) && edges { LAST_COL } else { rng.range(1, WIN_COLS as i64) as i32 };
     let ar = rng.chance(0.25);
     let ac = rng.chance(0.25);
     format!(
@@ -394,7 +410,22 @@ fn sheet_prefix(rng: &mut Rng, cx: &FCtx) -> String {
 }
 
 pub fn range_ref(rng: &mut Rng, cx: &FCtx) -> String {
-    let k = rng.weighted(&[80, 8, 8]);
+    range_ref_opt(rng, cx, false)
+}
+
+/// `full`: full-column / full-row ranges allowed (aggregates only: an array
+/// formula over a million rows costs 0.3 s per evaluation)
+pub fn range_ref_opt(rng: &mut Rng, cx: &FCtx, full: bool) -> String {
+    let k = if full { rng.weighted(&[80, 8, 8]) } else { 0 };
+    if !full && cx.p.guards {
+        // guard of KF "cycles through array formulas": array formulas read only
+        // the data zone A1:C4 of their own sheet and are anchored outside it
+        let r0 = rng.range(1, 3) as i32;
+        let c0 = rng.range(1, 2) as i32;
+        let r1 = r0 + rng.range(0, 1) as i32;
+        let c1 = c0 + rng.range(0, 1) as i32;
+        return format!("{}{r0}:{}{r1}", col_name(c0), col_name(c1));
+    }
     let pre = sheet_prefix(rng, cx);
     match k {
         0 => {
@@ -436,7 +467,7 @@ pub fn expr(rng: &mut Rng, cx: &FCtx, depth: u32) -> String {
             1 => cell_ref(rng, cx),
             2 => string_lit(rng),
             3 => cx.loc.bool(rng.chance(0.5)),
-            4 => rng.pick(&["#N/A", "#DIV/0!", "#VALUE!", "#REF!"]).to_string(),
+            4 => cx.loc.err(*rng.pick(&["#N/A", "#DIV/0!", "#VALUE!", "#REF!"])),
             _ => {
                 if cx.v.names.is_empty() {
                     cell_ref(rng, cx)
@@ -475,9 +506,9 @@ pub fn expr(rng: &mut Rng, cx: &FCtx, depth: u32) -> String {
                 }
                 "SUM" | "MIN" | "MAX" | "COUNT" | "COUNTA" | "AVERAGE" => {
                     if rng.chance(0.7) {
-                        format!("{name}({})", range_ref(rng, cx))
+                        format!("{name}({})", range_ref_opt(rng, cx, true))
                     } else {
-                        format!("{name}({}{sep}{})", range_ref(rng, cx), expr(rng, cx, depth - 1))
+                        format!("{name}({}{sep}{})", range_ref_opt(rng, cx, true), expr(rng, cx, depth - 1))
                     }
                 }
                 "ISBLANK" => format!("{name}({})", cell_ref(rng, cx)),
@@ -741,15 +772,19 @@ pub fn next_user_event(rng: &mut Rng, p: &Profile, v: &View) -> Ev {
     match fam {
         Fam::Input => Ev::Input { sheet: sh, row: row(rng, p), col: col(rng, p), text: input_text(rng, &cx) },
         Fam::Array => {
-            let r = row(rng, p).min(WIN_ROWS);
-            let c = col(rng, p).min(WIN_COLS);
+            let mut r = row(rng, p).min(WIN_ROWS);
+            let mut c = col(rng, p).min(WIN_COLS);
+            if p.guards {
+                r = r.max(5);
+                c = c.max(4);
+            }
             Ev::ArrayFormula {
                 sheet: sh,
                 row: r,
                 col: c,
                 w: rng.range(1, 3) as i32,
                 h: rng.range(1, 3) as i32,
-                text: if rng.chance(0.5) {
+                text: if rng.chance(0.5) || p.guards {
                     format!("={}*{}", range_ref(rng, &cx), number_lit(rng, &cx))
                 } else {
                     formula(rng, &cx)
